@@ -22,14 +22,16 @@ structure RelStep (o : Nat) (s s' : Sys) : Prop where
     s'.boosts = s.boosts ∧ s'.resIds = s.resIds
   edges : ∀ w b r, HasEdge s'.edges w b r → HasEdge s.edges w b r
   edgesKeep : ∀ w b r, w ≠ o → b ≠ o → HasEdge s.edges w b r → HasEdge s'.edges w b r
+  keys : (s.edges.map (·.1)).Nodup → (s'.edges.map (·.1)).Nodup
 
 theorem RelStep.refl (o : Nat) (s : Sys) : RelStep o s s :=
-  ⟨fun _ => Or.inl rfl, rfl, rfl, rfl, ⟨rfl, rfl, rfl, rfl, rfl, rfl⟩, fun _ _ _ h => h, fun _ _ _ _ _ h => h⟩
+  ⟨fun _ => Or.inl rfl, rfl, rfl, rfl, ⟨rfl, rfl, rfl, rfl, rfl, rfl⟩, fun _ _ _ h => h, fun _ _ _ _ _ h => h,
+    fun h => h⟩
 
 theorem RelStep.trans {o : Nat} {s1 s2 s3 : Sys} (h12 : RelStep o s1 s2) (h23 : RelStep o s2 s3) :
     RelStep o s1 s3 := by
   refine ⟨?_, h23.others.trans h12.others, h23.ids.trans h12.ids, h23.now.trans h12.now, ?_, ?_,
-    fun w b r hw hb h => h23.edgesKeep w b r hw hb (h12.edgesKeep w b r hw hb h)⟩
+    fun w b r hw hb h => h23.edgesKeep w b r hw hb (h12.edgesKeep w b r hw hb h), fun h => h23.keys (h12.keys h)⟩
   · intro r
     rcases h23.locks r with h | ⟨l, l', h2, ho, h3, hp, hw, hown⟩
     · rcases h12.locks r with h' | ⟨l, l', h1, ho, h2, hp, hw, hown⟩
@@ -118,6 +120,47 @@ theorem hasEdge_addDep {E : Edges} {w b r w' b' r' : Nat} :
       · exact ⟨e, List.mem_append_left _ he, hw, hm⟩
       · exact ⟨(w', [(b', r')]), List.mem_append_right _ (by simp), rfl, by simp⟩
 
+/-- the keys of the graph after `remove_all_for_agent` are a sublist of the keys before -/
+theorem keys_removeAllFor_sublist (E : Edges) (a : Nat) : ((removeAllFor E a).map (·.1)).Sublist (E.map (·.1)) := by
+  unfold removeAllFor
+  have h1 : ((E.filter (fun e => e.1 ≠ a)).map (fun e => (e.1, e.2.filter (fun d => d.1 ≠ a)))).map (·.1)
+      = (E.filter (fun e => e.1 ≠ a)).map (·.1) := by
+    rw [List.map_map]; rfl
+  have h2 : ((((E.filter (fun e => e.1 ≠ a)).map (fun e => (e.1, e.2.filter (fun d => d.1 ≠ a)))).filter
+      (fun e => !e.2.isEmpty)).map (·.1)).Sublist
+      (((E.filter (fun e => e.1 ≠ a)).map (fun e => (e.1, e.2.filter (fun d => d.1 ≠ a)))).map (·.1)) :=
+    List.Sublist.map _ List.filter_sublist
+  rw [h1] at h2
+  exact h2.trans (List.Sublist.map _ List.filter_sublist)
+
+theorem keys_removeAllFor_nodup {E : Edges} (a : Nat) (h : (E.map (·.1)).Nodup) :
+    ((removeAllFor E a).map (·.1)).Nodup :=
+  List.Nodup.sublist (keys_removeAllFor_sublist E a) h
+
+theorem keys_addDep_nodup {E : Edges} (w b r : Nat) (h : (E.map (·.1)).Nodup) :
+    ((addDep E w b r).map (·.1)).Nodup := by
+  unfold addDep
+  split
+  · have : (E.map (fun e => if e.1 = w then (e.1, if e.2.contains (b, r) then e.2 else e.2 ++ [(b, r)]) else e)).map (·.1)
+        = E.map (·.1) := by
+      rw [List.map_map]
+      apply List.map_congr_left
+      intro e _
+      simp only [Function.comp]
+      split <;> rfl
+    rw [this]; exact h
+  · rename_i hany
+    rw [List.map_append, List.nodup_append]
+    refine ⟨h, by simp, ?_⟩
+    intro x hx y hy
+    simp only [List.map_cons, List.map_nil, List.mem_singleton] at hy
+    subst hy
+    rintro rfl
+    apply hany
+    obtain ⟨e, he, hxe⟩ := List.mem_map.mp hx
+    simp only [List.any_eq_true, decide_eq_true_eq]
+    exact ⟨e, he, hxe⟩
+
 /-! ### contexts in the active table -/
 
 theorem setCtx_others (s : Sys) (c : Ctx) :
@@ -184,7 +227,7 @@ theorem relStep_setLock {s : Sys} {c c' : Ctx} {r : Nat} {l l' : Lock} (hid : c'
     (hl : s.locks r = some l) (ho : l.owner = some c.id) (hp : l'.preempt = l.preempt)
     (hw : l'.waiting = l.waiting) (hown : l'.owner = none ∨ l'.owner = some c.id) :
     RelStep c.id s (({ s.setLock r l' with edges := removeAllFor s.edges c.id }).setCtx c') := by
-  refine ⟨?_, ?_, ?_, rfl, ⟨rfl, rfl, rfl, rfl, rfl, rfl⟩, ?_, ?_⟩
+  refine ⟨?_, ?_, ?_, rfl, ⟨rfl, rfl, rfl, rfl, rfl, rfl⟩, ?_, ?_, fun h => keys_removeAllFor_nodup c.id h⟩
   rotate_right
   · intro w b x hw hb h
     exact hasEdge_removeAllFor.mpr ⟨hw, hb, h⟩
@@ -358,12 +401,13 @@ structure FinStep (o : Nat) (s s' : Sys) : Prop where
   cfg : s'.maxOp = s.maxOp ∧ s'.starv = s.starv ∧ s'.prog = s.prog ∧ s'.strategy = s.strategy ∧
     s'.boosts = s.boosts ∧ s'.resIds = s.resIds
   edges : ∀ w b r, HasEdge s'.edges w b r ↔ (w ≠ o ∧ b ≠ o ∧ HasEdge s.edges w b r)
+  keys : (s.edges.map (·.1)).Nodup → (s'.edges.map (·.1)).Nodup
 
 theorem finish_finStep (s : Sys) (c : Ctx) : FinStep c.id s (finish s c).1 := by
   have hr := (releaseKeys_relStep c.acquired s c).1
   unfold finish releaseAll
   simp only
-  refine ⟨?_, ?_, hr.now, hr.cfg, ?_⟩
+  refine ⟨?_, ?_, hr.now, hr.cfg, ?_, fun h => keys_removeAllFor_nodup c.id (hr.keys h)⟩
   · intro r
     simp only [forgetWaiter]
     rcases hr.locks r with he | ⟨l, l2, hl, ho, hl2, hp, hw, hown⟩
